@@ -813,13 +813,13 @@ theorem modifyNamed_closed {sp : Space} (hwf : SpaceWF sp) {st : St} (h : InRang
   have := hwf.specs_ne c hc
   exact List.length_pos_iff.mpr this
 
-theorem modifyMany_closed {sp : Space} (hwf : SpaceWF sp) :
+theorem modifyMany_closed {sp : Space} (hwf : SpaceWF sp) (delta : Int) :
     ∀ (l : List Name) (st : St), InRange sp st → (∀ n ∈ l, n ∈ sp.map Controller.name) →
-      ∃ st', modifyMany sp st l = .ok st' ∧ InRange sp st'
+      ∃ st', modifyMany sp delta st l = .ok st' ∧ InRange sp st'
   | [], st, h, _ => ⟨st, rfl, h⟩
   | n :: t, st, h, hl => by
-    obtain ⟨st1, h1, h2⟩ := modifyNamed_closed hwf h (hl n (List.mem_cons_self)) 1
-    obtain ⟨st2, h3, h4⟩ := modifyMany_closed hwf t st1 h2 (fun m hm => hl m (List.mem_cons_of_mem _ hm))
+    obtain ⟨st1, h1, h2⟩ := modifyNamed_closed hwf h (hl n (List.mem_cons_self)) delta
+    obtain ⟨st2, h3, h4⟩ := modifyMany_closed hwf delta t st1 h2 (fun m hm => hl m (List.mem_cons_of_mem _ hm))
     exact ⟨st2, by simp [modifyMany, h1, h3], h4⟩
 
 theorem drawn_mem {sp : Space} (hne : sp ≠ []) (k : Int) (choices : List Nat) :
@@ -850,7 +850,7 @@ theorem modifyOp_closed {sp : Space} (hwf : SpaceWF sp) {st : St} (h : InRange s
     obtain ⟨st2, h3, h4⟩ := modifyNamed_closed hwf h2 hop.2 (if d.north then step else -step)
     exact ⟨st2, by simp [modifyOp, h1, h3], h4⟩
   | several b =>
-    exact modifyMany_closed hwf _ st h (drawn_mem hwf.ne _ _)
+    exact modifyMany_closed hwf _ _ st h (drawn_mem hwf.ne _ _)
 
 /-- what an operator does on a valid configuration: the controllers are set to it, modified,
 and read back -/
